@@ -743,6 +743,15 @@ def r3_roles(program, rep):
     return n
 
 
+# public commands with contextual parameter names that are not wrapped, each
+# confirmed by reading
+UNWRAPPED_OK = {
+    "get_machine": "deprecated alias: documented to start the search for "
+                   "working chips at the (x, y) given literally (default "
+                   "255, 255), then delegates to get_system_info",
+}
+
+
 def r4_satisfiable(program, rep):
     n = 0
     for cls in (MC + ":MachineController", BMP + ":BMPController"):
@@ -756,6 +765,25 @@ def r4_satisfiable(program, rep):
                         "use_contextual_arguments"):
                     dec = d
             if dec is None:
+                # a public command that takes a chip / core / application /
+                # board by one of the contextual names must be wrapped, or
+                # it silently ignores the enclosing context (all its
+                # contextual parameters have defaults)
+                roles_ = [a.arg for a in fn.args.args if name_role(a.arg)
+                          and a.arg != "link"]
+                if roles_ and not fn.name.startswith("_"):
+                    why = UNWRAPPED_OK.get(fn.name)
+                    rep.check(why is not None, "C18-R4", qual(fn),
+                              "%s takes %s outside the context mechanism by "
+                              "design: %s" % (fn.name, roles_, why),
+                              construct="unwrapped command %s" % fn.name,
+                              node=fn,
+                              fail="%s takes the contextual parameter(s) %s "
+                                   "but is not wrapped by "
+                                   "use_contextual_arguments: inside "
+                                   "'with controller(x=.., y=..)' it is "
+                                   "still sent to its own defaults" % (
+                                       fn.name, roles_))
                 continue
             n += 1
             declared = set(k.arg for k in dec.keywords)
